@@ -91,11 +91,11 @@ const exampleStdin = "রহিম\n২৫\nline three\nline four\nline five\nli
 func checkC13(c *Ctx) {
 	rFresh, rSame := 24, 40
 	sel := []corpusSpec{{"FamObjects", "FamObjects_quick.cfg", 9, `^litnf[ab]:o;(litnf[ab]:p;|write:o\.[abc];|del:o\.[abc];)?(\|quiet)?$`}, {"FamOrder", "FamOrder_quick.cfg", 3, ""}, {"FamWild", "FamWild_quick.cfg", 60, ""}, {"FamCalls", "FamCalls_quick.cfg", 20, ""},
-		{"FamFaults", "FamFaults_quick.cfg", 12, "two-faults"}}
+		{"FamFaults", "FamFaults_quick.cfg", 12, "two-faults"}, {"FamInput", "FamInput.cfg", 7, ""}}
 	if c.Tier == "thorough" {
 		rFresh, rSame = 200, 300
 		sel = []corpusSpec{{"FamObjects", "FamObjects_quick.cfg", 3, "litnf"}, {"FamOrder", "FamOrder_quick.cfg", 1, ""}, {"FamWild", "FamWild_quick.cfg", 15, ""}, {"FamCalls", "FamCalls_quick.cfg", 5, ""}, {"FamArrays", "FamArrays_quick.cfg", 10, ""},
-			{"FamFaults", "FamFaults_quick.cfg", 2, "two-faults"}}
+			{"FamFaults", "FamFaults_quick.cfg", 2, "two-faults"}, {"FamInput", "FamInput.cfg", 1, ""}}
 	}
 	corpus := c.loadCorpus(sel, nil)
 	// programs that rebind a built-in name: state that must not leak from one execution to the next in the same process
@@ -487,16 +487,26 @@ var transforms = []transform{
 		}
 		return out, nil, true
 	}, false},
+	{"a:one-line", func(toks []string, rng *rand.Rand) ([]string, *RenderOpts, bool) {
+		// the whole program on a single line (line tokens dropped): every name of the program is read "on line 1"
+		var out []string
+		for _, t := range toks {
+			if !strings.HasPrefix(t, "L:") {
+				out = append(out, t)
+			}
+		}
+		return out, nil, len(out) < len(toks)
+	}, false},
 	{"a:layout", nil, false},
 }
 
 func checkC18(c *Ctx) {
 	sel := []corpusSpec{{"FamControl", "FamControl_quick.cfg", 6, ""}, {"FamCalls", "FamCalls_quick.cfg", 2, ""}, {"FamFaults", "FamFaults_quick.cfg", 3, ""}, {"FamArrays", "FamArrays_quick.cfg", 12, ""},
-		{"FamObjects", "FamObjects_quick.cfg", 12, ""}, {"FamOrder", "FamOrder_quick.cfg", 2, ""}, {"FamScope", "FamScope_quick.cfg", 12, ""}, {"FamOps", "FamOps_quick.cfg", 60, "^chain"}}
+		{"FamObjects", "FamObjects_quick.cfg", 12, ""}, {"FamOrder", "FamOrder_quick.cfg", 2, ""}, {"FamScope", "FamScope_quick.cfg", 12, ""}, {"FamOps", "FamOps_quick.cfg", 60, "^chain"}, {"FamPrint", "FamPrint_quick.cfg", 3, ""}}
 	reps := 1
 	if c.Tier == "thorough" {
 		sel = []corpusSpec{{"FamControl", "FamControl_quick.cfg", 1, ""}, {"FamCalls", "FamCalls_quick.cfg", 1, ""}, {"FamFaults", "FamFaults_quick.cfg", 1, ""}, {"FamArrays", "FamArrays_quick.cfg", 2, ""},
-			{"FamObjects", "FamObjects_quick.cfg", 2, ""}, {"FamOrder", "FamOrder_quick.cfg", 1, ""}, {"FamScope", "FamScope_quick.cfg", 2, ""}, {"FamWild", "FamWild_quick.cfg", 3, ""}, {"FamOps", "FamOps_quick.cfg", 8, "^chain"}}
+			{"FamObjects", "FamObjects_quick.cfg", 2, ""}, {"FamOrder", "FamOrder_quick.cfg", 1, ""}, {"FamScope", "FamScope_quick.cfg", 2, ""}, {"FamWild", "FamWild_quick.cfg", 3, ""}, {"FamOps", "FamOps_quick.cfg", 8, "^chain"}, {"FamPrint", "FamPrint_quick.cfg", 1, ""}}
 		reps = 4
 	}
 	corpus := c.loadCorpus(sel, func(r *SemRec) bool {
